@@ -826,9 +826,11 @@ def calc_gamma(ctx, mod, rule='C02-D4'):
             lag = sp.Symbol(loop.target.id, integer=True, nonnegative=True)
             env[loop.target.id] = lag
             l0 = T(l.slice.lower) if l.slice.lower is not None else sp.Integer(0)
-            l1 = T(l.slice.upper)
+            # an open upper bound is the length of the sliced array
+            full = lambda arr: T(ast.Call(func=ast.Name(id='len', ctx=ast.Load()), args=[arr], keywords=[]))  # noqa: E731
+            l1 = T(l.slice.upper) if l.slice.upper is not None else full(l.value)
             r0 = T(r.slice.lower) if r.slice.lower is not None else sp.Integer(0)
-            r1 = T(r.slice.upper)
+            r1 = T(r.slice.upper) if r.slice.upper is not None else full(r.value)
             ok = sp.simplify((r0 - l0) - lag) == 0 and sp.simplify((l1 - l0) - (r1 - r0)) == 0 and sp.simplify(r1 - ns) == 0 and l0 == 0
             ctx.check(rule, key, ok, 'gamma[n] = sum_i delta_i delta_{i+n} over all new_shape-n pairs',
                       'direct sum pairs [%s:%s] with [%s:%s] at lag %s' % (l0, l1, r0, r1, lag), mod.loc(c))
